@@ -15,6 +15,11 @@
 //	api       concurrent Get/GetAll/IsDefined/Size/Clone/Set/Run/RunContext on ONE Compiled: no panic, clones
 //	          taken meanwhile behave like solo clones, the final state equals the solo state; under -race:
 //	          no report.
+//	          Programs with Cancel (long loops): RunContext calls whose context is cancelled at the k-th dispatched
+//	          instruction / times out mid-run, overlapped by the other calls; the probe reports a VM of the object that
+//	          still dispatches after its Run/RunContext call returned (cancel.go).
+//	          Programs with Pre: clones of a second script fail inside format (string limit) right before the
+//	          concurrent part; the format-heavy clones must still yield their solo results.
 //	shape     (model) which nodes of Clone()'s globals are new objects vs shared with the original, compared
 //	          with `copy` of Tengo/Model/Clone.lean (driver line `cloneshape`).
 //	probes    dedicated inputs of the known findings O14 O15 O16 C08-K1 (KnownHits while they still fail).
@@ -35,6 +40,7 @@ import (
 	"strconv"
 	"strings"
 	"sync"
+	"sync/atomic"
 	"time"
 
 	"github.com/d5/tengo/v2"
@@ -53,6 +59,9 @@ type Scenario struct {
 	Builtin  bool                   `json:"builtin,omitempty"`   // builtin module "mod" {id: 7}; clone i replaces it by {id: 1000+i}
 	AfterRun bool                   `json:"after_run,omitempty"` // the original is run once before it is cloned
 	Runs     int                    `json:"runs,omitempty"`      // runs per clone (default 1)
+	Pre      string                 `json:"pre,omitempty"`       // a script whose clones run alone, one after another, right before the clones / goroutines start (it is expected to fail with the string-limit error inside format)
+	PreRuns  int                    `json:"pre_runs,omitempty"`  // … this many times
+	Cancel   bool                   `json:"cancel,omitempty"`    // long-running program: api trials only, with RunContext calls cancelled / timing out mid-run (cancel.go)
 }
 
 // Trial: one concurrent execution of a scenario.
@@ -71,11 +80,13 @@ type Trial struct {
 }
 
 // Op is one API call of an api trial. Kind: 0 Get, 1 GetAll, 2 IsDefined, 3 Size, 4 Set(id), 5 Clone+Set+Run,
-// 6 Run, 7 RunContext.
+// 6 Run, 7 RunContext; scenarios with Cancel only: 8 RunContext cancelled at the Val-th dispatched instruction of
+// the run (At = "write": at the first global write from there on), 9 RunContext with a deadline of Val µs.
 type Op struct {
 	Kind int    `json:"kind"`
 	Name string `json:"name,omitempty"`
 	Val  int64  `json:"val"`
+	At   string `json:"at,omitempty"`
 }
 
 var (
@@ -85,8 +96,9 @@ var (
 	isChild bool
 	noRace  bool
 
-	// read by the probe on every VM goroutine; written only between trials
-	yieldMod, yieldPh int
+	// read by the probe on every VM goroutine; written only between trials (atomics: a VM goroutine that
+	// outlives its trial must not turn into a race report about the harness)
+	yieldMod, yieldPh atomic.Int64
 )
 
 func init() {
@@ -94,8 +106,11 @@ func init() {
 	// allocates gigabytes per clone. Solo and concurrent runs see the same limit (set once, before any VM runs).
 	tengo.MaxStringLen, tengo.MaxBytesLen = 1<<20, 1<<20
 	tengo.VerifProbe = func(v *tengo.VM, fn *tengo.CompiledFunction, ip, sp, bp, fi int, allocs int64) {
-		if yieldMod > 0 && (ip*31+sp*7+fi)%yieldMod == yieldPh {
+		if m := int(yieldMod.Load()); m > 0 && (ip*31+sp*7+fi)%m == int(yieldPh.Load()) {
 			runtime.Gosched()
+		}
+		if w := watch.Load(); w != nil {
+			w.dispatch(v, fn, ip)
 		}
 	}
 }
@@ -221,6 +236,61 @@ func runClone(c *tengo.Compiled, sc Scenario, useCtx bool) string {
 	return r
 }
 
+// provoke runs clones of the scenario's Pre script alone, one after another (each on a goroutine of its own that
+// is joined before the next one starts): an execution that fails — with the string-limit error inside format —
+// must not change what any later execution yields. Called from the main goroutine only.
+func provoke(sc Scenario) string {
+	if sc.Pre == "" {
+		return ""
+	}
+	s := tengo.NewScript([]byte(sc.Pre))
+	s.SetImports(stdlib.GetModuleMap(sc.Stdlib...))
+	pc, err := s.Compile()
+	if err != nil {
+		return "pre: " + err.Error()
+	}
+	n, out := sc.PreRuns, ""
+	if n < 1 {
+		n = 1
+	}
+	for j := 0; j < n; j++ {
+		done := make(chan string)
+		go func(ctx bool) { done <- runOne(pc.Clone(), ctx) }(j%2 == 1)
+		o := <-done
+		if !strings.Contains(o, tengo.ErrStringLimit.Error()) {
+			res.Dist("pre-run-without-string-limit-error")
+		}
+		out += o + " ; "
+	}
+	return out
+}
+
+// clip shortens the two sides of a failed comparison of long results to the region of the first difference.
+func clip(got, want string) (string, string) {
+	const max, ctx = 1500, 300
+	if len(got) <= max && len(want) <= max {
+		return got, want
+	}
+	i := 0
+	for i < len(got) && i < len(want) && got[i] == want[i] {
+		i++
+	}
+	cut := func(s string) string {
+		lo, hi := i-ctx, i+ctx
+		if lo < 0 {
+			lo = 0
+		}
+		if hi > len(s) {
+			hi = len(s)
+		}
+		if lo > hi {
+			lo = hi
+		}
+		return fmt.Sprintf("(%d bytes; first difference at byte %d) …%s…", len(s), i, s[lo:hi])
+	}
+	return cut(got), cut(want)
+}
+
 // rune caches of String objects reachable from the constants of c (read through reflection only)
 func runeCacheFilled(c *tengo.Compiled) bool {
 	bc := reflect.ValueOf(c).Elem().FieldByName("bytecode")
@@ -307,6 +377,7 @@ func solo(sc Scenario, k int) soloRes {
 			}
 			cl := base.Clone()
 			configure(cl, sc, i)
+			provoke(sc)
 			out := runClone(cl, sc, rep == 1) + "| " + snapshot(cl)
 			if rep == 0 {
 				first = out
@@ -327,13 +398,15 @@ func setSched(t Trial) int {
 	if t.Procs > 0 {
 		runtime.GOMAXPROCS(t.Procs)
 	}
-	yieldMod, yieldPh = t.YieldMod, t.YieldPh
+	yieldMod.Store(int64(t.YieldMod))
+	yieldPh.Store(int64(t.YieldPh))
 	return old
 }
 
 func resetSched(old int) {
 	runtime.GOMAXPROCS(old)
-	yieldMod, yieldPh = 0, 0
+	yieldMod.Store(0)
+	yieldPh.Store(0)
 }
 
 // handleRaces attributes the race reports written since the last call to trial t.
@@ -399,6 +472,7 @@ func cloneTrial(t Trial, so soloRes) {
 	}
 	outs := make([]string, t.K)
 	old := setSched(t)
+	provoke(sc) // after GOMAXPROCS is set: per-P caches of the runtime (sync.Pool) are re-made when it changes
 	if t.Procs == 0 {
 		for _, i := range t.Order {
 			outs[i] = runClone(cl[i], sc, t.Ctx[i])
@@ -431,8 +505,9 @@ func cloneTrial(t Trial, so soloRes) {
 	for i := range cl {
 		got := outs[i] + "| " + snapshot(cl[i])
 		if got != so.clone[i] {
+			g, w := clip(got, so.clone[i])
 			violate(lib.Violation{Signature: "clone-differs-from-solo", Stream: "clones", Input: t,
-				Observed: fmt.Sprintf("clone %d: %s", i, got), Expected: fmt.Sprintf("clone %d alone: %s", i, so.clone[i]),
+				Observed: fmt.Sprintf("clone %d: %s", i, g), Expected: fmt.Sprintf("clone %d alone: %s", i, w),
 				Oracle: "error text and GetAll of clone i after the trial vs the same clone of a fresh compile run alone"})
 			return
 		}
@@ -488,7 +563,18 @@ func apiTrial(t Trial, r *lib.RNG) {
 				n, vals = 4+r.Intn(5), 3
 			}
 			for j := 0; j < n; j++ {
-				t.Plans[i] = append(t.Plans[i], Op{Kind: r.Weighted([]int{4, 3, 3, 2, 3, 3, 2, 1}), Name: lib.Pick(r, names), Val: int64(r.Intn(vals))})
+				if !sc.Cancel {
+					t.Plans[i] = append(t.Plans[i], Op{Kind: r.Weighted([]int{4, 3, 3, 2, 3, 3, 2, 1}), Name: lib.Pick(r, names), Val: int64(r.Intn(vals))})
+					continue
+				}
+				o := Op{Kind: r.Weighted([]int{4, 3, 1, 1, 3, 2, 1, 1, 6, 4}), Name: lib.Pick(r, names), Val: int64(r.Intn(vals))}
+				switch o.Kind {
+				case 8:
+					o.Val, o.At = int64(1+r.Intn(3000)), lib.Pick(r, []string{"any", "write", "write"})
+				case 9:
+					o.Val = int64(200 + r.Intn(2300))
+				}
+				t.Plans[i] = append(t.Plans[i], o)
 			}
 		}
 	}
@@ -496,6 +582,14 @@ func apiTrial(t Trial, r *lib.RNG) {
 	mark("trial", t)
 	bad := make([]string, g)
 	old := setSched(t)
+	provoke(sc)
+	var w *runWatch
+	if sc.Cancel {
+		if w = newRunWatch(c); w == nil {
+			res.Dist("cancel-oracle-unavailable-vm-layout-changed")
+		}
+		watch.Store(w)
+	}
 	var wg sync.WaitGroup
 	start := make(chan struct{})
 	for i := 0; i < g; i++ {
@@ -540,18 +634,35 @@ func apiTrial(t Trial, r *lib.RNG) {
 					if want := soloClone(o.Val); strings.HasPrefix(want, "ok") && got != want {
 						bad[i] = "clone taken during concurrent use: " + got + " ; alone: " + want
 					}
-				case 6:
-					runOne(c, false)
-				case 7:
-					runOne(c, true)
+				case 6, 7, 8, 9:
+					if w != nil {
+						if b := w.runWatched(c, o); b != "" {
+							bad[i] = b
+						}
+					} else if o.Kind <= 7 {
+						runOne(c, o.Kind == 7)
+					}
 				}
 			}
 		}(i)
 	}
 	close(start)
 	wg.Wait()
+	watch.Store(nil)
 	resetSched(old)
 	handleRaces(t, "api")
+	if w != nil {
+		w.mu.Lock()
+		sig, obs, holds := w.sig, w.viol, w.holds
+		w.mu.Unlock()
+		res.Distribution["api-cancel-triggered-mid-run"] += holds
+		if obs != "" {
+			violate(lib.Violation{Signature: sig, Stream: "api", Input: t, Observed: obs,
+				Expected: "when Run/RunContext returns, the execution it started is over: no instruction of that run is dispatched afterwards",
+				Oracle:   "tengo.VerifProbe on the VM that works on this object's globals; run-type calls on the object are serialised by the harness, each marked as returned right after the call; schedule-independent (see cancel.go)"})
+			return
+		}
+	}
 	for i, b := range bad {
 		if b != "" {
 			violate(lib.Violation{Signature: "api-concurrent-misbehaves", Stream: "api", Input: t,
@@ -612,6 +723,27 @@ func targeted() []Scenario {
 	}
 }
 
+// targetedLate: scenarios added after the first evaluation of seeded changes. They run AFTER the generated
+// programs, so the program sequence of a seed (scenario i draws from the i-th fork) is the one it always was.
+func targetedLate() []Scenario {
+	return []Scenario{
+		// an execution whose format output exceeds tengo.MaxStringLen fails; the clones that call format afterwards
+		// (at the same time) must still get what they get alone
+		{Name: "format-after-limit-error", IDVar: "id", Pre: "x := format(\"%2000000d\", 1)\n", PreRuns: 8,
+			Src: "out := []\nfor i := 0; i < 120; i++ {\n  out = append(out, format(\"%d|%5d|%-6s|%q|%v|%x|%08.3f|%c|%t|%o\", id + i, i, \"ab\", \"q\" + string(i), [i, \"s\", id], id * i + 255, float(i) / 8, 'a' + i % 26, i % 2 == 0, i))\n}\nn := len(out)\n"},
+		{Name: "format-containers-after-limit-error", IDVar: "id", Stdlib: []string{"fmt"}, Pre: "x := format(\"%-1048577s|\", \"a\")\n", PreRuns: 5,
+			Src: "fmt := import(\"fmt\")\nres := {}\nfor i := 0; i < 100; i++ {\n  a := format(\"%v %v\", [i, [id, \"x\"], {k: i}], {only: [i, id]})\n  b := fmt.sprintf(\"%10.3s|%-8v|%+d|%T\", \"abcdef\" + string(i), error(i), id - i, i)\n  c := format(\"%s=%v;%5.1f;%b\", \"k\" + string(i), immutable([i]), float(id) / 3, i)\n  res[string(i)] = [a, b, c]\n}\n"},
+		// the failing format call happens inside every second clone (first of its two runs), while the others format
+		{Name: "format-limit-error-inside-clones", IDVar: "id", Vars: map[string]interface{}{"n": 0}, Runs: 2,
+			Src: "n += 1\nif n == 1 && id % 2 == 0 { boom := format(\"%3000000d\", id) }\nout := []\nfor i := 0; i < 120; i++ { out = append(out, format(\"%d:%s:%v:%6.2f:%x\", i + id, \"v\" + string(i), [id, i], float(i) / 7, i * id)) }\n"},
+		// long-running programs for cancelled / timed-out RunContext calls on one object (api stream, cancel.go)
+		{Name: "cancel-long-loop", IDVar: "id", Cancel: true,
+			Src: "a := 0\nm := {k: 0}\narr := [0, 0, 0]\nfor i := 0; i < 800; i++ { a = a + 1; m.k = a + id; arr[i % 3] = a }\nout := a + id\n"},
+		{Name: "cancel-calls-and-map-writes", IDVar: "id", Cancel: true,
+			Src: "f := func(x) { return x * 2 + 1 }\ntot := 0\nm := {}\nfor i := 0; i < 600; i++ { tot = f(tot) % 1000003 + id; m[string(i % 7)] = tot }\ns := \"\"\nfor i := 0; i < 50; i++ { s = s + string(i % 10) }\n"},
+	}
+}
+
 func genScenario(r *lib.RNG, i int) Scenario {
 	p := lib.DefaultProfile()
 	p.MaxStmts = 8 + r.Intn(10)
@@ -654,6 +786,21 @@ func mkTrial(sc Scenario, k int, r *lib.RNG, mode string, sequential bool) Trial
 var tSolo, tClone, tApi time.Duration
 
 func runScenario(sc Scenario, r *lib.RNG, reps int, ks []int) {
+	if sc.Cancel { // api stream only
+		for rep := 0; rep < reps; rep++ {
+			t := mkTrial(sc, lib.Pick(r, []int{2, 4, 8}), r, "api", false)
+			t.Seed = flags.Seed
+			t2 := time.Now()
+			before := nViol
+			apiTrial(t, r)
+			tApi += time.Since(t2)
+			res.Count("api", sc.Src+"\x00"+strconv.Itoa(rep), true)
+			if nViol > before {
+				return
+			}
+		}
+		return
+	}
 	for _, k := range ks {
 		t0 := time.Now()
 		so := solo(sc, k)
@@ -1171,6 +1318,27 @@ func mainLoop(rng *lib.RNG, start int) {
 			curIndex = idx
 			raceRegionTrials(r)
 		}
+		idx++
+	}
+	for _, sc := range targetedLate() {
+		r := rng.Fork()
+		if idx >= start {
+			curIndex = idx
+			ks := []int{2, 4, 8}
+			if raceEnabled && !flags.Thorough() {
+				ks = []int{2, 8}
+			}
+			t0 := time.Now()
+			n := reps // format scenarios: every trial re-provokes, a few repetitions per K suffice
+			if sc.Cancel {
+				n = 2 * treps // api trials; cheap (the run is cut short most of the time)
+			}
+			runScenario(sc, r, n, ks)
+			res.Dist("targeted:" + sc.Name)
+			res.Extra["t_"+sc.Name+"_s"] = time.Since(t0).Seconds()
+			flushWorker()
+		}
+		idx++
 	}
 	res.Extra["t_solo_s"], res.Extra["t_clones_s"], res.Extra["t_api_s"] = tSolo.Seconds(), tClone.Seconds(), tApi.Seconds()
 }
@@ -1182,7 +1350,7 @@ func main() {
 	flags = lib.ParseFlags()
 	if *show {
 		res = lib.NewResult("C08", flags)
-		for _, sc := range targeted() {
+		for _, sc := range append(targeted(), targetedLate()...) {
 			so := solo(sc, 2)
 			fmt.Printf("%s: err=%v unstable=%v touches=%v\n  orig: %s\n  c0: %s\n  c1: %s\n", sc.Name, so.err, so.unstable, so.touches, so.orig, so.clone[0], so.clone[1])
 		}
